@@ -116,8 +116,11 @@ type PanicRecord struct {
 }
 
 type Result struct {
-	Steps      int
-	Pruned     bool
+	Steps  int
+	Pruned bool
+	// LockRaces: conflicting accesses to a designated location that are ordered only through the acquisition
+	// order of a mutex which at least one of them does not hold (see Acc)
+	LockRaces  []string
 	Horizon    bool
 	Panics     []PanicRecord
 	Failures   []string
@@ -141,6 +144,7 @@ type exec struct {
 	clockVC  vclock
 	objs     map[unsafe.Pointer]*objState
 	chans    map[uintptr]*chanState
+	locked   []*objState // mutexes locked right now (the lock set of an access, see Acc)
 	poison   bool
 	res      *Result
 	keyA     uint64
